@@ -181,3 +181,43 @@ Definition chk_aworld
       | Raise _ => false
       end
   end.
+
+(* ---- large gophermaps (sizes around and beyond 4 KiB .. 1 MiB) ----
+   A large map enters as a COMPACT description `parts` = [(block, repetitions); ...] which is expanded here
+   (big Gallina literals elaborate slowly); what the implementation returned enters as the number of
+   entries plus its first and last entries (resp. the length, head and tail of the Gopher0 menu). *)
+Fixpoint rep_app (b : str) (n : nat) (tail : str) : str :=
+  match n with O => tail | S k => b ++ rep_app b k tail end.
+Fixpoint expand_parts (parts : list (str * N)) : str :=
+  match parts with
+  | [] => []
+  | (b, n) :: r => rep_app b (N.to_nat n) (expand_parts r)
+  end.
+Definition lastn {A} (k : nat) (l : list A) : list A := skipn (List.length l - k) l.
+
+(* (variant, (((selector, is map file), (parts, existing)), (number of entries, (first entries, last entries)))) *)
+Definition chk_bigworld
+  (c : bool * (((str * bool) * (list (str * N) * list str)) * (N * (list core * list core)))) : bool :=
+  let '(fixed, (((sel, is_file), (parts, existing)), (count, (first, last)))) := c in
+  match k_entries fixed sel is_file (expand_parts parts) existing with
+  | Ok es =>
+      let cs := map core_of es in
+      (N.of_nat (List.length cs) =? count) &&
+      list_eqb core_eqb (firstn (List.length first) cs) first &&
+      list_eqb core_eqb (lastn (List.length last) cs) last
+  | Raise _ => false
+  end.
+
+(* (variant, (((selector, is map file), (parts, existing)), (length of the menu, (its head, its tail)))) *)
+Definition chk_bigmenu
+  (c : bool * (((str * bool) * (list (str * N) * list str)) * (N * (str * str)))) : bool :=
+  let '(fixed, (((sel, is_file), (parts, existing)), (len, (head, tail)))) := c in
+  match k_entries fixed sel is_file (expand_parts parts) existing with
+  | Ok es =>
+      match writedir [] [] (gopher0_line SRV_NAME SRV_PORT) es with
+      | Some s => (N.of_nat (List.length s) =? len) && str_eqb (firstn (List.length head) s) head &&
+                  str_eqb (lastn (List.length tail) s) tail
+      | None => false
+      end
+  | Raise _ => false
+  end.
